@@ -213,11 +213,14 @@ def check_property(prop, tier, seed, jobs, write_evidence=True):
     # ---- report
     rc = 0
     os.makedirs(os.path.join(HERE, "replays", prop), exist_ok=True)
+    for old in os.listdir(os.path.join(HERE, "replays", prop)):
+        os.remove(os.path.join(HERE, "replays", prop, old))
     for k, x in known_hits[:20]:
         print("KNOWN-FINDING: property=%s %s" % (prop, k["what"]))
     # a known finding must still reproduce; listed ones that did not show up are only noted
     for i, v in enumerate(violations):
-        path = os.path.join("replays", prop, "%s_%d.json" % (v["contract"].split("::")[-1].replace("/", "_"), i))
+        safe = "".join(ch if ch.isalnum() or ch in "._-" else "_" for ch in v["contract"].split("::")[-1])
+        path = os.path.join("replays", prop, "%s_%d.json" % (safe, i))
         with open(os.path.join(HERE, path), "w") as fh:
             json.dump({"property": prop, "contract": v["contract"], "case": v["case"], "failed_clauses": v["failed"],
                        "failed_obligations": v["unproved"], "args": v["args"], "found_by": v["how"], "outcome": v.get("outcome"),
